@@ -9,6 +9,7 @@ mod lru;
 mod pick;
 mod score;
 mod seekcheck;
+mod binsearch;
 mod c09;
 mod sched;
 mod c12;
@@ -51,6 +52,7 @@ fn main() {
     });
     let corpus = arg(&args, "--corpus").unwrap_or_else(|| "/verif/corpus".into());
     let rep = match comp.as_str() {
+        "binsearch" => binsearch::run(&tier, seed, replay.as_deref(), &drv),
         "c12" => c12::run(&tier, seed, &drv, replay.as_deref(), &format!("{corpus}/C12")),
         "c04" => c04::run(&tier, seed, &drv, replay.as_deref(), &format!("{corpus}/C04")),
         "c13" => c13::run(&tier, seed, &drv, replay.as_deref(), &format!("{corpus}/C13")),
